@@ -20,15 +20,22 @@ def main():
     ctx.log('%d programs (%d discarded by the discipline)' % (len(progs), disc))
     base = ctx.tmp('w')
     LEVELS = ['-Q1', '-Q0'] if ctx.tier == 'quick' else ['-Q1', '-Q0', '-Q3']
+    BT = {'ALDOR_VERIF_BT': '1'}
+    def comp_fault(p):
+        """innermost repository functions of a fault that happened while compiling (not while interpreting the program)"""
+        if b'ALDOR_VERIF_BT begin' not in (p.err + p.out): return None
+        full = fault_chain(b, p, 60).split('<')
+        if 'fint' in full or 'fintExecMainUnit' in full: return None
+        return '<'.join(full[:3])
     def work(job):
         j, (name, g, text, out, cls) = job
         res = []
         for lv in LEVELS:
             d = os.path.join(base, '%d%s' % (j, lv)); os.makedirs(d + '/i'); os.makedirs(d + '/c')
             for sub in ('i', 'c'): open(os.path.join(d, sub, 'x.as'), 'w').write(text)
-            pi = routes.interp_src(b, os.path.join(d, 'i'), 'x.as', [lv])
+            pi = routes.interp_src(b, os.path.join(d, 'i'), 'x.as', [lv], env=BT)
             res.append(('interp' + lv, pi, routes.norm_out(pi, interp=True)))
-            pc, gcc, exe = routes.compile_c(b, os.path.join(d, 'c'), 'x.as', [lv])
+            pc, gcc, exe = routes.compile_c(b, os.path.join(d, 'c'), 'x.as', [lv], env=BT)
             if exe:
                 pr = routes.run_exe(exe, os.path.join(d, 'c')); res.append(('c' + lv, pr, pr.out))
             else: res.append(('c' + lv, gcc or pc, None))
@@ -49,6 +56,10 @@ def main():
         for route, p, got in res:
             nexec += 1
             files = {'x.as': text, 'expected.txt': out + '[exit class %s]\n' % cls, 'observed-%s.txt' % route: (got or b'') + (b'\n[' + p.cause.encode() + b']\n') + p.err[-1500:]}
+            # a fault of the compiler itself is keyed by where it happened (innermost repository functions), whatever the route
+            cf = comp_fault(p)
+            if cf:
+                ctx.violation('compiler-fault:%s' % cf, '%s on %s: %s\n%s' % (route, name, p.cause, fault_text(p)), files); continue
             if got is None:
                 ctx.violation('no-executable:%s' % route, '%s on %s: %s\n%s' % (route, name, p.cause, (p.out + p.err)[-500:].decode(errors='replace')), files); continue
             if p.timeout: ctx.violation('hang:%s' % route, '%s on %s' % (route, name), files); continue
@@ -67,8 +78,11 @@ def main():
         if not fn.endswith('.as'): continue
         text = open(os.path.join(kd, fn)).read(); exp = open(os.path.join(kd, fn[:-3] + '.expected')).read()
         d = ctx.tmp('known-' + fn[:-3]); open(os.path.join(d, 'x.as'), 'w').write(text)
-        p = routes.interp_src(b, d, 'x.as', ['-Q1'])
-        if routes.norm_out(p, True).decode(errors='replace') != exp or p.rc != 0:
+        mo = re.match(r'-- opts: (.*)\n', text)
+        p = routes.interp_src(b, d, 'x.as', mo.group(1).split() if mo else ['-Q1'], env=BT); nexec += 1
+        cf = comp_fault(p)
+        if cf: ctx.violation('compiler-fault:%s' % cf, 'witness %s: %s' % (fn, fault_text(p)), {'x.as': text})
+        elif routes.norm_out(p, True).decode(errors='replace') != exp or p.rc != 0:
             ctx.violation('witness:' + fn[:-3], 'expected %r, got %r (%s)' % (exp, p.out[-200:], p.cause), {'x.as': text})
     ctx.sample({'program': progs[0][2][-900:], 'expected': progs[0][3], 'exit': progs[0][4]})
     ctx.assumptions += ['the reference evaluator implements the Aldor User Guide semantics for the generated subset (DESIGN 2.2); programs outside its discipline are discarded before compilation',
